@@ -11,6 +11,7 @@ import DadiVerif.Lemmas.DemesProgCompute
 import DadiVerif.Lemmas.DemesProgScale
 import DadiVerif.Lemmas.DemesFrozen
 import DadiVerif.Lemmas.DemesExport
+import DadiVerif.Lemmas.DemesSlicePlan
 /-!
 # C16 — demes graphs vs native dadi models: units, wiring, order, export
 
@@ -1182,5 +1183,112 @@ example : importBoundary (unitProps 3 1) 5
     = some ([PCall.split [eraName 2 0, eraName 1 1, eraName 1 2] (eraName 1 1) [eraName 2 0, eraName 2 1, eraName 1 2, eraName 2 3]],
             [eraName 2 0, eraName 2 1, eraName 2 2, eraName 2 3]) := by
   decide +kernel
+
+/-! ## round 5: importing a sliced graph, whole graph -/
+
+/-- the generated `_sizes_at_time` / `_size_at` / epoch search, as `Lemmas/DemesSlicePlan.lean` needs them -/
+theorem sizesAt_shift (fn : SizeFn) (ss es s et x y t : ℚ) :
+    sizesAt fn ss es (some (s - t)) (some (et - t)) (s - et) (some x) (some y) = sizesAt fn ss es (some s) (some et) (s - et) (some (x + t)) (some (y + t)) := by
+  have e1 : s - t - x = s - (x + t) := by ring
+  have e2 : s - t - y = s - (y + t) := by ring
+  have e3 : (s - t = x) ↔ (s = x + t) := by constructor <;> intro h <;> linarith
+  have e4 : (et - t = y) ↔ (et = y + t) := by constructor <;> intro h <;> linarith
+  cases fn <;> simp only [sizesAt, teq, tval, e1, e2, beq_iff_eq, e3, e4] <;> rfl
+
+theorem sizesAt_const (ss : ℚ) (st et : ETime) (sp : ℚ) (i0 i1 : ETime) : sizesAt SizeFn.constant ss ss st et sp i0 i1 = some (Sym.r ss, Sym.r ss) := by
+  cases h1 : teq st i0 <;> cases h2 : teq et i1 <;> simp [sizesAt, h1, h2]
+
+theorem sliceFacts (ex lg : ℚ → ℚ) (pw : ℚ → ℚ → ℚ) (hlog : ∀ z, lg (ex z) = z) (hexp : ∀ z, ex (lg z) = z) : SliceFacts ex lg pw := by
+  refine ⟨fun _ _ _ => rfl, sizesAt_shift, sizesAt_const, ?_, ?_, ?_⟩
+  · intro fn t ss es s et es' hss h1 h2 hle hconst hes x y hy
+    rcases lt_or_eq_of_le hle with hlt | heq
+    · exact C16_slice_sizes ex lg pw hlog fn t ss es s et es' hss h1 h2 hlt hes x y hy
+    · -- the slice time is the epoch's own end: the sliced epoch is the epoch, moved
+      subst heq
+      have hshift := sizesAt_shift fn ss es s et x y et
+      rw [sub_self] at hshift
+      cases fn with
+      | other => simp [sizesAt]
+      | constant =>
+        have h1' : es' = ss := by simpa [sliceSizeAt, Sym.eval] using hes.symm
+        have h2' : es = ss := hconst rfl
+        rw [h1', h2', sub_zero, sizesAt_const, sizesAt_const]
+      | linear =>
+        have : es' = es := by
+          have h := hes
+          simp only [sliceSizeAt, Option.map_some, Sym.eval, tval, Option.some.injEq] at h
+          have h' : (SizeFn.linear == SizeFn.constant) = false := by decide
+          have h'' : (SizeFn.linear == SizeFn.exponential) = false := by decide
+          simp only [h', h'', Bool.false_eq_true, if_false, beq_self_eq_true, if_true, Option.map_some, Sym.eval, Option.some.injEq] at h
+          rw [← h, div_self h1]; ring
+        rw [this, sub_zero, hshift]
+      | exponential =>
+        have : es' = es := by
+          have h := hes
+          have h' : (SizeFn.exponential == SizeFn.constant) = false := by decide
+          simp only [sliceSizeAt, h', Bool.false_eq_true, if_false, beq_self_eq_true, if_true, Option.map_some, Sym.eval, tval, Option.some.injEq] at h
+          rw [← h, mul_div_assoc, div_self h1, mul_one, hexp]
+          field_simp
+        rw [this, sub_zero, hshift]
+  · intro fn t ss es st et hfn
+    cases fn <;> simp_all [sliceSizeAt]
+  · intro t ss es st et
+    simp [sliceSizeAt]
+
+/-- **Importing a sliced graph, whole graph** (`C16_slice_sizes` for every deme, migration and interval at once).  Let `g` be a graph whose
+    demes have well-formed epochs (end times strictly decreasing below the start, non-zero sizes, constant / linear / exponential size
+    functions, an epoch starting at `inf` constant) and asymmetric migrations, `t > 0` the slice time, and `g'` the graph `DemesUtil.slice`
+    returns, read by the importer (end sizes of cut epochs evaluated).  For EVERY interval `(x, y)` with `0 ≤ y < x` (`x` may be `inf`) in which
+    the chosen epochs cover the interval, the row `_get_integration_parameters` computes for `g'` on `(x, y)` IS the row it computes for `g` on
+    `(x + t, y + t)`: the same integration time, the same live demes in the same axis order (sliced copies of the original ones), the same
+    frozen flags, the same migration matrix, the same all-constant flag — and `_sizes_at_time` finds for every live deme the same size function
+    and the same start / end sizes (values; the epoch containing the slice time carries the size `_size_at` computed, arbitrary `exp` / `log`
+    inverse to each other).  So the plan of the sliced graph is the plan of the original graph moved by the slice time. -/
+theorem C16_slice_plan (ex lg : ℚ → ℚ) (pw : ℚ → ℚ → ℚ) (hlog : ∀ z, lg (ex z) = z) (hexp : ∀ z, ex (lg z) = z) (t : ℚ) (ht : 0 < t)
+    (g : Graph InEpoch) (hwf : ∀ d ∈ g.demes, demeWf d) (hasym : ∀ m ∈ g.migs, m.sym = none) (fz : List DName) (Ne : ℚ) (x : ETime) (y : ℚ)
+    (hy : 0 ≤ y) (hx : tgt x (some y) = true)
+    (hcov : ∀ d ∈ liveIn g (tadd x t) (some (y + t)), ∃ e ∈ epochsOf d.start d.epochs, covers (tadd x t) (y + t) e = true) :
+    planRow (sliceIn ex lg pw t g) fz Ne (x, some y) (liveIn (sliceIn ex lg pw t g) x (some y))
+        = planRow g fz Ne (tadd x t, some (y + t)) (liveIn g (tadd x t) (some (y + t)))
+    ∧ (liveIn (sliceIn ex lg pw t g) x (some y)).map (fun d => (demeSizes d x (some y)).map (evalSizes ex lg pw))
+        = (liveIn g (tadd x t) (some (y + t))).map (fun d => (demeSizes d (tadd x t) (some (y + t))).map (evalSizes ex lg pw))
+    ∧ (liveIn (sliceIn ex lg pw t g) x (some y)).map (·.name) = (liveIn g (tadd x t) (some (y + t))).map (·.name) := by
+  have hsl : (sliceIn ex lg pw t g).demes = (g.demes.filter fun d => !tle d.start (some t)).map (sliceDemeIn ex lg pw t) := by
+    obtain ⟨h1, _, _, _⟩ := C16_slice_graph t g (ne_of_gt ht)
+    unfold sliceIn
+    dsimp only
+    rw [h1, List.map_map]
+    apply List.map_congr_left
+    intro d _
+    simp only [Function.comp, sliceDemeIn, GDeme.mk.injEq, true_and, and_true]
+    cases d.start <;> rfl
+  have hstep : ∀ (r : ℚ) (m : GMig) (s d : DName) (i0 i1 : ETime), m.sym = none →
+      migRateStep r m s d i0 i1 = if (m.source == s && m.dest == d && (tge m.st i0 && tle (some m.et) i1)) then m.rate else r := by
+    intro r m s d i0 i1 hm
+    unfold migRateStep
+    rw [hm]
+    simp only
+    cases h1 : (m.source == s && m.dest == d) <;> cases h2 : (tge m.st i0 && tle (some m.et) i1) <;> simp [h1, h2]
+  have hT : ∀ (x : ETime) (y t Ne : ℚ), intTime x (some y) Ne = intTime (tadd x t) (some (y + t)) Ne := by
+    intro x y t Ne
+    unfold intTime tadd
+    cases x with
+    | none => rfl
+    | some v => simp only [isInf, tval, Bool.false_eq_true, if_false]; congr 2; ring
+  obtain ⟨r1, r2⟩ := planRow_slice (sliceFacts ex lg pw hlog hexp) demePresent_text hstep hT t ht g (sliceIn ex lg pw t g) hsl rfl hwf hasym fz Ne x y hy hx hcov
+  refine ⟨r1, r2, ?_⟩
+  rw [liveIn_slice demePresent_text ex lg pw t ht g (sliceIn ex lg pw t g) hsl hwf x y hy hx, List.map_map]
+  rfl
+
+/-- non-vacuity: `exGraph` sliced at 5: on the interval (15, 0) of the sliced graph the importer finds the row of the original on (20, 5) -/
+example :
+    (∀ d ∈ exGraph.demes, demeWf d) ∧
+    (planRow (sliceIn id id (fun x _ => x) 5 exGraph) [] 100 (some 15, some 0) (liveIn (sliceIn id id (fun x _ => x) 5 exGraph) (some 15) (some 0))).T = 3/40
+    ∧ (planRow exGraph [] 100 (some 20, some 5) (liveIn exGraph (some 20) (some 5))).T = 3/40
+    ∧ (liveIn (sliceIn id id (fun x _ => x) 5 exGraph) (some 15) (some 0)).map (·.name) = [⟨1, []⟩, ⟨2, []⟩] := by
+  refine ⟨?_, by decide +kernel, by decide +kernel, by decide +kernel⟩
+  intro d hd
+  simp only [exGraph, List.mem_cons, List.not_mem_nil, or_false] at hd
+  rcases hd with rfl | rfl | rfl <;> simp [demeWf, epochsWf, tgt, tle, tge] <;> norm_num
 
 end DadiVerif
